@@ -303,6 +303,13 @@ func render(c gengo.Context, pieces []Piece, gen, typ string, st *state, into *s
 				fmt.Fprintf(&tb, " %s=%q", k, tags[k])
 			}
 			sn = snippet.Sprintf("\n%T\nvar _"+gen+"_doc_"+typ+" = %v\n", snippet.Comment(fmt.Sprintf("%s:%s doc=%q", typ, tb.String(), doc)), doc)
+		case "locate":
+			// prints which package gengo locates the type's declaration in
+			where := "<nil>"
+			if lp := c.LocateInPackage(obj.Pos()); lp != nil {
+				where = lp.Pkg().Path()
+			}
+			sn = snippet.Sprintf("\n%T\nvar _"+gen+"_located_"+typ+" = %v\n", snippet.Comment(fmt.Sprintf("%s is declared in %s", typ, where)), where)
 		case "block":
 			sn = snippet.Block(text)
 		case "sharedexpose":
